@@ -51,6 +51,20 @@ def fsStepsOf (s : Store) : Step → List FsStep
   | .reopen => if s.opened || FS.has s.fs .lock then [] else [.create .lock .lock, .complete .lock]
   | _ => []
 
+/-- The first half of flushMemtable — nextSegmentID and the os.Create of every component file
+    (all still empty), before WriteTo. This is where the flush worker can be parked while a client
+    call runs to completion (the harness's `bg fcreate`); the step system of `exec` does not split
+    the write (client calls are atomic with respect to worker steps there), so states produced by
+    `beginWrite` are used by the correspondence run only, not by the theorems. -/
+def beginWrite (s : Store) (info : List Info) : Store × Nat :=
+  let id := s.counter + 1
+  let steps := (writeSteps s.cfg.tpl id info s.T).take (comps s.cfg.tpl).length
+  ({ s with counter := id, fs := applySteps s.fs steps,
+            gh := { s.gh with everNamed := id :: s.gh.everNamed,
+                              allocated := id :: s.gh.allocated,
+                              overwrote := s.gh.overwrote || overwrites s.fs steps,
+                              reused := s.gh.reused || s.gh.everNamed.any fun j => decide (id ≤ j) } }, id)
+
 /-- re-cut the files named in `created` -/
 def recut (created : List Name) (cuts : Name → Cut) (fs : FS) : FS :=
   fs.map fun e => if created.contains e.1 then (e.1, { e.2 with cut := cuts e.1 }) else e
